@@ -4,6 +4,10 @@
 (* the step (log_leak).  Contract of Secrets.tla: nothing in the log, ever; nothing in get / list     *)
 (* answers.  "user" (the Milvus user name) is reported by the driver but is not a credential.         *)
 (* SaslUserIsSecret: the anchors of the property list KafkaSASL.Username among the secrets.           *)
+(* Both clauses hold for every input and fault the plans enumerate and are judged alike: whatever the *)
+(* spelling of the request's keys (event field spell; stored = the canaries that reached the task     *)
+(* record, i.e. the decoder accepted the spelling) and whatever the answer code of a get / list (a    *)
+(* get whose store read failed - fault 1 / 90, fault_hit - is still a get answer).                    *)
 (* Known findings (env KF_<name>) allow log leaks of exactly the shape they describe:                 *)
 (*   C18_CREATE_FAIL_LOGS_REQUEST  a create that is not answered with 200 logs its request            *)
 (*   C18_CONNECT_FAIL_LOGS_PARAM   a create whose connection probe fails logs the connect parameters  *)
